@@ -258,4 +258,6 @@ pub mod scores;
 pub mod seq_analysis;
 pub mod stats;
 pub mod utils;
+#[cfg(feature = "verif-hooks")]
+pub mod verif;
 pub use bio_types;
